@@ -274,6 +274,9 @@ func (c *trCtx) varType(o types.Object, pos token.Pos) string {
 	if lv := c.logVars[o]; lv != nil {
 		return lv.typ
 	}
+	if r, ok := c.perfVarType(o, pos); ok {
+		return r
+	}
 	return c.leanType(o.Type(), pos)
 }
 
